@@ -109,3 +109,58 @@ contract("FromImport.get_imported_resource", source=I + "FromImport.get_imported
                   # an explicit relative import is resolved from its own package and never through the global module search
                   "implies(self.level != 0, result == rel_module(context.project, self.module_name, context.folder, self.level))"],
          note="`from .utils import x` names pkg/utils.py even when a top-level utils.py exists")
+
+# ---- CPython cross-check of the two AddingVisitor contracts on real import objects ---------------------------------------------------------
+class _XcPrefs(dict):
+    pass
+
+
+class _XcProject:
+    def __init__(self, split):
+        self.prefs = _XcPrefs(split_imports=split)
+
+
+def _xc_add_domain(tier, seed):
+    import itertools
+    normal = [[("a", None)], [("a.b", None)], [("ab", None)], [("a.b", "x")], [("a", "x")], [("a", None), ("c", None)], [("a.b.c", None)]]
+    for old in normal:
+        for new in normal:
+            yield ("normal", old, new, False)
+    pairs = [[("n", None)], [("n", "al")], [("m", None), ("n", None)], [("*", None)], [("n", None), ("n", "al")]]
+    for old in pairs:
+        for new in pairs:
+            for mod2, lvl2 in (("helpers", 0), ("other", 0), ("helpers", 1)):
+                for split in (False, True):
+                    yield ("from", old, new, (mod2, lvl2, split))
+    for old in normal[:3]:
+        yield ("mixed", old, pairs[0], False)
+
+
+def _xc_add_build(case):
+    from rope.refactor.importutils import importinfo, actions
+    kind, old, new, extra = case
+    if kind == "normal":
+        oi, ni = importinfo.NormalImport(list(old)), importinfo.NormalImport(list(new))
+        proj = _XcProject(False)
+    elif kind == "from":
+        mod2, lvl2, split = extra
+        oi, ni = importinfo.FromImport("helpers", 0, list(old)), importinfo.FromImport(mod2, lvl2, list(new))
+        proj = _XcProject(split)
+    else:
+        oi, ni = importinfo.NormalImport(list(old)), importinfo.FromImport("helpers", 0, list(new))
+        proj = _XcProject(False)
+    stmt = importinfo.ImportStatement(oi, 1, 2)
+    v = actions.AddingVisitor(proj, [ni])
+    v.import_info = ni
+    return {"self": v, "import_stmt": stmt, "import_info": oi}
+
+
+_XC_ADD_ENV = {"star": lambda i: i.is_star_import(), "split_imports": lambda prefs: bool(prefs.get("split_imports"))}
+REG.records["NormalImport"].pyclass = "rope.refactor.importutils.importinfo:NormalImport"
+REG.records["FromImport"].pyclass = "rope.refactor.importutils.importinfo:FromImport"
+bounded_check(name="c07-adding-normal-native", props=["C04", "C05", "C07"], contract="AddingVisitor.visitNormalImport",
+              build=lambda c: _xc_add_build(c), domain=lambda t, s: [c for c in _xc_add_domain(t, s) if c[0] != "from"], exhaustive=True, env=_XC_ADD_ENV,
+              label="CPython cross-check: visitNormalImport's contract on real NormalImport/FromImport objects, 7 x 7 (name, alias) lists")
+bounded_check(name="c07-adding-from-native", props=["C04", "C05", "C07"], contract="AddingVisitor.visitFromImport",
+              build=lambda c: _xc_add_build(c), domain=lambda t, s: [c for c in _xc_add_domain(t, s) if c[0] == "from"], exhaustive=True, env=_XC_ADD_ENV,
+              label="CPython cross-check: visitFromImport's contract on real FromImport objects: 5 x 5 name lists x same/other module/level x split_imports")
